@@ -78,6 +78,11 @@ __CPROVER_ensures(VP_NO_LOCK_HELD)
 __CPROVER_ensures(g_pipe_peer != PAIR1_PEER ==> (RV == NNG_EPROTO && P1_S->p == OLD(P1_S->p) && g_pipe_recv_calls == OLD(g_pipe_recv_calls)))
 __CPROVER_ensures((g_pipe_peer == PAIR1_PEER && OLD(P1_S->p) != NULL) ==> (RV == NNG_EBUSY && P1_S->p == OLD(P1_S->p) && g_pipe_recv_calls == OLD(g_pipe_recv_calls) && g_p1_sched_calls == OLD(g_p1_sched_calls)))
 __CPROVER_ensures((g_pipe_peer == PAIR1_PEER && OLD(P1_S->p) == NULL) ==> (RV == 0 && P1_S->p == P1_P && !P1_S->rd_ready && g_pipe_recv_calls == OLD(g_pipe_recv_calls) + 1 && g_pipe_recv_pipe == P1_P->pipe && g_pipe_recv_aio == &P1_P->aio_recv && g_p1_sched_calls == OLD(g_p1_sched_calls) + 1))
+/* a refused peer (wrong protocol, or NNG_EBUSY while the first is alive) must not disturb the live pair: NOTHING of the socket changes -
+ * readiness flags, the attached peer, both descriptors, waiting operations; nothing is sent, completed or closed (wr_ready, the rings and the
+ * attached pipe's own state are not assignable at all: frame) */
+__CPROVER_ensures(RV != 0 ==> (P1_S->p == OLD(P1_S->p) && P1_S->rd_ready == OLD(P1_S->rd_ready) && g_pollr == OLD(g_pollr) && g_pollw == OLD(g_pollw) && g_qa.n == OLD(g_qa.n) && g_qb.n == OLD(g_qb.n) && g_fin_calls == OLD(g_fin_calls) && g_pipe_send_calls == OLD(g_pipe_send_calls) && g_pipe_recv_calls == OLD(g_pipe_recv_calls) && g_pipe_close_calls == OLD(g_pipe_close_calls) && g_p1_sched_calls == OLD(g_p1_sched_calls)))
+__CPROVER_ensures(RV == 0 || RV == NNG_EPROTO || RV == NNG_EBUSY)
 ;
 
 #ifdef P1_SCHED_LIGHT
@@ -158,9 +163,10 @@ __CPROVER_requires(__CPROVER_is_fresh(aio, sizeof(nni_aio)) && VP_AIO_NOT_QUEUED
 __CPROVER_requires(P1_RS->rd_ready ==> (__CPROVER_is_fresh(P1_RS->p, sizeof(struct pair1_pipe)) && __CPROVER_is_fresh(P1_HELD, sizeof(struct nng_msg))))
 __CPROVER_requires(P1_RS->rd_ready ==> g_p2 == (void *) P1_HELD)
 __CPROVER_requires(P1_RS->rmq.lmq_len > 0 ==> __CPROVER_is_fresh(LMQ_VIEW(&P1_RS->rmq, 0), sizeof(struct nng_msg)))
-/* stable state: receivers wait only when nothing is buffered or held; a message is held only when the buffer is full */
+/* stable state: receivers wait only when nothing is buffered or held */
 __CPROVER_requires(g_qa.n == 0 || (P1_RS->rmq.lmq_len == 0 && !P1_RS->rd_ready))
-__CPROVER_requires(!P1_RS->rd_ready || P1_RS->rmq.lmq_len >= P1_RS->rmq.lmq_cap)
+/* (no "a message is held only when the buffer is full" precondition: growing NNG_OPT_RECVBUF leaves a parked message parked,
+ * see modules/pairx *_set_recv_buf_len; the postconditions below hold for a parked message with room in the buffer as well) */
 __CPROVER_requires((P1_RS->rmq.lmq_len > 0 || P1_RS->rd_ready) ==> g_pollr)
 __CPROVER_requires(g_k < P1_RS->rmq.lmq_len ==> g_p == (void *) LMQ_VIEW(&P1_RS->rmq, g_k))
 __CPROVER_assigns(aio->a_msg, aio->a_result, aio->a_count, P1_RS->rd_ready, P1_RS->rmq.lmq_get, P1_RS->rmq.lmq_put, P1_RS->rmq.lmq_len, __CPROVER_object_whole(P1_RS->rmq.lmq_msgs), VP_PROTO_GHOST_LIST, VP_SYNC_GHOSTS)
